@@ -133,6 +133,9 @@ Definition count (x : cdiag) (l : list cdiag) : nat := length (filter (cdiag_eqb
 Definition permb (l s : list cdiag) : bool :=
   Nat.eqb (length l) (length s) && forallb (fun x => Nat.eqb (count x l) (count x s)) l.
 
+Definition keys_injb (l : list cdiag) : bool :=
+  forallb (fun a => forallb (fun b => match dcmp a b with Eq => cdiag_eqb a b | _ => true end) l) l.
+
 Inductive canon_case :=
 (* input l; Diagnostics after Canonicalize with KeepDuplicates (sorted), without (out), and after
    canonicalising out once more (twice) *)
@@ -146,7 +149,8 @@ Definition canon_chk (c : canon_case) : bool :=
     permb l sorted && sortedb sorted && cdiags_eqb (dedup sorted) out &&
     (* the second pass: what it returned is again a sorted permutation of out, deduplicated *)
     sortedb twice && cdiags_eqb (dedup twice) twice &&
-    (if forallb (fun d => negb (c_level d =? -1)) l then cdiags_eqb twice out else true)
+    (* the only possible second outcome, inside the hypotheses of C36_canon_idempotent_unique *)
+    (if forallb (fun d => negb (c_level d =? -1)) l && keys_injb l then cdiags_eqb twice out else true)
   | CCmp a b c =>
     match dcmp a b with Lt => c =? -1 | Eq => c =? 0 | Gt => c =? 1 end
   end.
